@@ -220,6 +220,33 @@ fn make_event(m: &sim::Model, inv: &crate::maps::Inv, rng: &mut Rng, kind: u64, 
             }
             "two PWB messages for one chip under different chunk labels"
         }
+        17 => {
+            // as 16, but the second message is short: every waveform ends before the run's delay, so it leaves no signal
+            let mut done = false;
+            let mut groups: Vec<(String, u8)> = banks.iter().filter(|b| b.0.starts_with("PC")).map(|b| (b.0.clone(), b.1[10])).collect();
+            groups.sort();
+            groups.dedup();
+            for (nm, chip) in groups.clone() {
+                let mut cs: Vec<alpha_g_detector::padwing::Chunk> = banks.iter().filter(|b| b.0 == nm && b.1[10] == chip).map(|b| super::must_chunk(&b.1)).collect();
+                cs.sort_by_key(|c| c.chunk_id());
+                let payload: Vec<u8> = cs.iter().flat_map(|c| c.payload().to_vec()).collect();
+                let Some(mut p) = crate::refs::pwb_ref(&payload) else { continue };
+                let Some(label) = (0..4u8).find(|l| !groups.contains(&(nm.clone(), *l))) else { continue };
+                p.requested_samples = 3;
+                for c in p.channels.iter_mut() {
+                    c.1.truncate(3);
+                }
+                for c in p.chunks(cs[0].board_id().device_id(), label, 700) {
+                    banks.push((nm.clone(), c.encode()));
+                }
+                done = true;
+                break;
+            }
+            if !done {
+                banks.retain(|b| b.0 != "ATAT");
+            }
+            "two PWB messages for one chip, the second without samples after the delay"
+        }
         _ => {
             // a wire bank present twice, both long, different content
             let w = *wires.keys().next().unwrap();
@@ -251,7 +278,7 @@ fn run(ctx: &mut Ctx) {
         }
         ctx.cur_case = i;
         let mut rng = ctx.rng_for("events", i);
-        let (banks, what) = make_event(&m, &inv, &mut rng, i % 17, i);
+        let (banks, what) = make_event(&m, &inv, &mut rng, i % 18, i);
         let groups = {
             let mut g: Vec<&str> = banks.iter().filter(|b| b.0.starts_with("PC")).map(|b| &b.0[..]).collect();
             g.sort();
